@@ -12,7 +12,7 @@ import (
 const stlNormalScale = 4096 // S of StlFormat.tla
 
 type SRec struct {
-	N  []int   `json:"n"`  // normal, each component rounded to 1/4096
+	N  []int   `json:"n"`  // normal, each component rounded to 1/4096 ("sb" lines: float32 bit patterns)
 	Nz bool    `json:"nz"` // normal is exactly zero
 	V  [][]int `json:"v"`  // three corners (Enc.Obs)
 	A  int     `json:"a"`
@@ -42,7 +42,11 @@ func scaleNormal(x float64) int {
 
 // ParseStl reads what is there: the count field as stored and as many whole
 // records as the byte string holds after the 84-byte prefix.
-func ParseStl(b []byte, enc Enc) SFile {
+func ParseStl(b []byte, enc Enc) SFile { return parseStl(b, enc, false) }
+
+// parseStl with normalBits logs the normals as float32 bit patterns instead
+// of rounded to 1/4096 (record-level cases: exact reproduction).
+func parseStl(b []byte, enc Enc, normalBits bool) SFile {
 	f := SFile{Nbytes: len(b), Count: -1, Recs: []SRec{}}
 	if len(b) < 84 {
 		f.Rem = len(b)
@@ -56,6 +60,10 @@ func ParseStl(b []byte, enc Enc) SFile {
 	body := b[84:]
 	n := len(body) / 50
 	f.Rem = len(body) - 50*n
+	if n > capRecs { // more records than the case can account for: log the first capRecs (> expected) of them
+		n = capRecs
+		capHit = true
+	}
 	for i := 0; i < n; i++ {
 		r := body[50*i : 50*i+50]
 		fl := make([]float32, 12)
@@ -64,6 +72,9 @@ func ParseStl(b []byte, enc Enc) SFile {
 		}
 		rec := SRec{N: []int{scaleNormal(float64(fl[0])), scaleNormal(float64(fl[1])), scaleNormal(float64(fl[2]))},
 			Nz: fl[0] == 0 && fl[1] == 0 && fl[2] == 0, V: [][]int{}, A: int(r[48]) | int(r[49])<<8}
+		if normalBits {
+			rec.N = []int{f32bits(fl[0]), f32bits(fl[1]), f32bits(fl[2])}
+		}
 		for c := 0; c < 3; c++ {
 			rec.V = append(rec.V, enc.ObsVec(float64(fl[3+3*c]), float64(fl[4+3*c]), float64(fl[5+3*c])))
 		}
